@@ -95,35 +95,111 @@ def _pow2(k: int) -> bool:
     return k >= 1 and (k & (k - 1)) == 0
 
 
-def ip_check(recs, DT: int, tick: float, vscale: float, report) -> int:
-    """recs: emitted records of ONE matching pair (i, x); evaluated in one vectorised call."""
-    i, x = recs[0]["i"], recs[0]["x"]
-    dt = DT * tick
+def adjust_fn(name: str, vscale: float):
+    return {"id": None, "plus12": (lambda v: v + 12.0 / vscale), "double": (lambda v: 2.0 * v), "neg": (lambda v: -v)}[name]
+
+
+KNOWN_KWARGS = {"adjust", "time_constant", "rate_constant"}
+
+
+def signature_guard():
+    """The specification enumerates the optional keyword arguments of the shipped kernels; a
+    keyword the specification does not know makes the check incomplete (machinery failure)."""
+    import inspect
+    found = {}
+    for name in dir(inf_f):
+        if name.startswith(("interp_", "extrap_")):
+            ps = inspect.signature(getattr(inf_f, name)).parameters.values()
+            kws = {p.name for p in ps if p.kind == p.KEYWORD_ONLY}
+            found[name] = sorted(kws)
+            if not kws <= KNOWN_KWARGS:
+                raise MachineryFailure(f"{name} has keyword arguments {sorted(kws - KNOWN_KWARGS)} unknown to the specification")
+    takes_adjust = sorted(n for n, k in found.items() if "adjust" in k)
+    if takes_adjust != ["extrap_linear_backward", "extrap_linear_forward"]:
+        raise MachineryFailure(f"kernels taking `adjust` changed: {takes_adjust}")
+    return found
+
+
+def _ip_tensors(recs, tick, vscale):
     f32 = lambda key, s=1.0: torch.tensor([r[key] * s for r in recs], dtype=torch.float32)
-    sample, prev, nxt = f32("sample", 1 / vscale), f32("prev", 1 / vscale), f32("next", 1 / vscale)
-    at = f32("t", tick)
+    return f32("sample", 1 / vscale), f32("prev", 1 / vscale), f32("next", 1 / vscale), f32("t", tick)
+
+
+def _ip_exact(recs, x, DT):
     # float32-exact cases: every division is by a power of two
     div = [r["t"] if x == "linear_forward" else (DT - r["t"]) if x == "linear_backward" else 1 for r in recs]
-    exact = np.array([_pow2(d) for d in div])
-    n = 2
+    return np.array([_pow2(d) for d in div])
+
+
+def _ip_compare(name, got, recs, key, vscale, exact, report, ctx):
+    want = np.array([r[key] / vscale for r in recs], dtype=np.float64)
+    g = got.detach().numpy().astype(np.float64)
+    if g.shape != want.shape:
+        report(name, dict(ctx, observed_shape=list(g.shape)))
+        return
+    bad = np.where(exact, g != want, ~np.isclose(g, want, rtol=1e-5, atol=1e-6))
+    if bad.any():
+        k = int(np.argmax(bad))
+        report(name, dict(ctx, record=recs[k], specified=float(want[k]), observed=float(g[k]),
+                          compared="exactly" if exact[k] else "rtol 1e-5"))
+
+
+def ip_check(recs, DT: int, tick: float, vscale: float, report) -> int:
+    """recs: emitted records of ONE (interpolation, extrapolation, adjust) triple; evaluated in one
+    vectorised call of the standalone functions."""
+    i, x, adj = recs[0]["i"], recs[0]["x"], recs[0]["adj"]
+    dt = DT * tick
+    sample, prev, nxt, at = _ip_tensors(recs, tick, vscale)
+    exact = _ip_exact(recs, x, DT)
+    kw = {"adjust": adjust_fn(adj, vscale)} if adj != "id" else {}
+    ctx = {"pair": [i, x], "adjust": adj, "tick": tick, "vscale": vscale, "path": "standalone"}
     try:
-        b0, b1 = EXTRAP[x](sample, at, prev, nxt, dt)
+        b0, b1 = EXTRAP[x](sample, at, prev, nxt, dt, **kw)
         val = INTERP[i](b0, b1, at, dt)
     except Exception as ex:
-        report("InterpPairs", {"pair": [i, x], "raised": type(ex).__name__, "msg": str(ex)[:200]})
-        return n
+        report("InterpPairs", dict(ctx, raised=type(ex).__name__, msg=str(ex)[:200]))
+        return 2
     for name, got, key in (("ExtrapPrev", b0, "b0"), ("ExtrapNext", b1, "b1"), ("RoundTrip", val, "val")):
-        want = np.array([r[key] / vscale for r in recs], dtype=np.float64)
-        g = got.detach().numpy().astype(np.float64)
-        if g.shape != want.shape:
-            report(name, {"pair": [i, x], "observed_shape": list(g.shape)})
-            continue
-        bad = np.where(exact, g != want, ~np.isclose(g, want, rtol=1e-5, atol=1e-6))
-        if bad.any():
-            k = int(np.argmax(bad))
-            report(name, {"pair": [i, x], "record": recs[k], "tick": tick, "vscale": vscale, "specified": float(want[k]),
-                          "observed": float(g[k]), "compared": "exactly" if exact[k] else "rtol 1e-5"})
-    return n
+        _ip_compare(name, got, recs, key, vscale, exact, report, ctx)
+    return 2
+
+
+def ip_record_check(recs, DT: int, tick: float, vscale: float, report) -> int:
+    """The same records through a real RecordTensor: the older / newer observations are pushed,
+    the sample is inserted at time dt - t before the newest observation with the extrapolation
+    (and its keyword arguments), the two slots are read back, and the same time is selected with
+    the matching interpolation.  Only strictly-between times (on-grid times bypass the kernels)."""
+    from inferno.core.infrastructure import Module, RecordTensor
+    recs = [r for r in recs if 0 < r["t"] < DT]
+    if not recs:
+        return 0
+    i, x, adj = recs[0]["i"], recs[0]["x"], recs[0]["adj"]
+    dt = DT * tick
+    sample, prev, nxt, at = _ip_tensors(recs, tick, vscale)
+    exact = _ip_exact(recs, x, DT)
+    kw = {"adjust": adjust_fn(adj, vscale)} if adj != "id" else None
+    ctx = {"pair": [i, x], "adjust": adj, "tick": tick, "vscale": vscale, "path": "RecordTensor.insert/select"}
+    owner = Module()
+    RecordTensor.create(owner, "rec", dt, 3 * dt, torch.zeros(len(recs), dtype=torch.float32))
+    rec = owner.rec
+    try:
+        if rec.recordsz < 3:
+            raise MachineryFailure(f"record of size {rec.recordsz}")
+        rec.push(torch.full((len(recs),), 7.0))
+        rec.push(prev)
+        rec.push(nxt)
+        time = dt - at                                 # time before the newest observation
+        rec.insert(sample, time, EXTRAP[x], offset=1, extrap_kwargs=kw)
+        older, newer = rec.read(2).clone(), rec.read(1).clone()
+        val = rec.select(time, INTERP[i], offset=1)
+    except MachineryFailure:
+        raise
+    except Exception as ex:
+        report("InterpPairs", dict(ctx, raised=type(ex).__name__, msg=str(ex)[:200]))
+        return 1
+    for name, got, key in (("ExtrapPrev", older, "b0"), ("ExtrapNext", newer, "b1"), ("RoundTrip", val, "val")):
+        _ip_compare(name, got, recs, key, vscale, exact, report, ctx)
+    return 1
 
 
 def ipx_check(recs, DT: int, tick: float, report) -> int:
@@ -153,12 +229,17 @@ def ipx_check(recs, DT: int, tick: float, report) -> int:
 
 
 # --------------------------------------------------------------------------- distributions
-def _q(values) -> list[int]:
+def _q(values, bad: list, name: str) -> list[int]:
+    """quantise; a NaN / inf / unrepresentable value is recorded in `bad` (clause Finite) and
+    logged as 0 - it is never silently turned into a number the laws could accept"""
     out = []
     for v in np.asarray(values, dtype=np.float64).reshape(-1):
         if not np.isfinite(v) or abs(v) * Q >= 2 ** 31 - 1:
-            return [-777777]        # not representable: any law over it fails visibly
-        out.append(int(round(v * Q)))
+            if name not in bad:
+                bad.append(name)
+            out.append(0)
+        else:
+            out.append(int(round(v * Q)))
     return out
 
 
@@ -172,58 +253,94 @@ def _call(errs, name, fn):
     return None
 
 
-def poisson_event(rate: float, K: int):
-    errs: list[str] = []
+def _np(t):
+    return t.detach().numpy().astype(np.float64)
+
+
+def poisson_events(rates: list[float], K: int):
+    """One event per rate.  Every function is called twice: with the scalar rate (fields den,
+    cdf, ...) and ONCE for all rates with tensor parameters broadcast against the support column
+    (fields denb, cdfb: degenerate and regular entries mixed in one call)."""
     k = torch.arange(0, K + 1, dtype=torch.float32)
-    pmf = _call(errs, "pmf", lambda: Poisson.pmf(k, rate))
-    lpmf = _call(errs, "logpmf", lambda: Poisson.logpmf(k, rate))
-    cdf = _call(errs, "cdf", lambda: Poisson.cdf(k, rate))
-    lcdf = _call(errs, "logcdf", lambda: Poisson.logcdf(k, rate))
-    mean = _call(errs, "mean", lambda: Poisson.mean(rate))
-    var = _call(errs, "variance", lambda: Poisson.variance(rate))
-    ret = {"errs": errs}
-    if not errs:
-        ret.update(den=_q(pmf), eld=_q(np.exp(lpmf.numpy().astype(np.float64))), cdf=_q(cdf),
-                   elc=_q(np.exp(lcdf.numpy().astype(np.float64))), mean=_q(mean)[0], var=_q(var)[0])
-    return {"op": {"a": "poisson", "K": K, "rate": rate}, "ret": ret, "st": 0}
+    rt = torch.tensor(rates, dtype=torch.float32)
+    berrs: list[str] = []
+    bpmf = _call(berrs, "pmf[broadcast]", lambda: Poisson.pmf(k[:, None], rt[None, :]))
+    bcdf = _call(berrs, "cdf[broadcast]", lambda: Poisson.cdf(k[:, None], rt[None, :]))
+    bmean = _call(berrs, "mean[tensor]", lambda: Poisson.mean(rt))
+    out = []
+    for j, rate in enumerate(rates):
+        errs = list(berrs)
+        bad: list[str] = []
+        pmf = _call(errs, "pmf", lambda: Poisson.pmf(k, rate))
+        lpmf = _call(errs, "logpmf", lambda: Poisson.logpmf(k, rate))
+        cdf = _call(errs, "cdf", lambda: Poisson.cdf(k, rate))
+        lcdf = _call(errs, "logcdf", lambda: Poisson.logcdf(k, rate))
+        mean = _call(errs, "mean", lambda: Poisson.mean(rate))
+        var = _call(errs, "variance", lambda: Poisson.variance(rate))
+        ret = {"errs": errs, "nonfinite": bad}
+        if not errs:
+            ret.update(den=_q(_np(pmf), bad, "pmf"), eld=_q(np.exp(_np(lpmf)), bad, "exp(logpmf)"), cdf=_q(_np(cdf), bad, "cdf"),
+                       elc=_q(np.exp(_np(lcdf)), bad, "exp(logcdf)"), mean=_q(_np(mean), bad, "mean")[0],
+                       var=_q(_np(var), bad, "variance")[0],
+                       denb=_q(_np(bpmf)[:, j], bad, "pmf[broadcast]"), cdfb=_q(_np(bcdf)[:, j], bad, "cdf[broadcast]"),
+                       meanb=_q(_np(bmean)[j], bad, "mean[tensor]")[0])
+        out.append({"op": {"a": "poisson", "K": K, "rate": rate}, "ret": ret, "st": 0})
+    return out
 
 
-def cont_event(kind: str, loc: float, scale: float, n: int = 256, per_sigma: int = 16, sub: int = 4):
+def cont_events(kind: str, params: list[tuple[float, float]], n: int = 256, hd: int = 16, sub: int = 4):
+    """One event per (loc, scale) on the STANDARDISED grid z_i = (i - n/2)/hd, i.e. x = loc + scale z
+    (ln x for lognormal).  Logged densities are multiplied by scale (and by x for lognormal: the
+    density of z), the first moment is (mean - loc)/scale and the second var/scale^2 (normal);
+    lognormal moments are float64 quadratures of the logged density divided by the stated mean /
+    variance (expected 1).  Scalar-parameter calls (den, cdf) and one broadcast call with tensor
+    parameters for all parameter sets (denb, cdfb)."""
     dist = Normal if kind == "normal" else LogNormal
-    hd = per_sigma / scale
-    if hd != int(hd):
-        raise MachineryFailure(f"grid spacing 1/{hd} is not the reciprocal of an integer")
-    hd = int(hd)
-    sub = max(d for d in (4, 2, 1) if hd % d == 0 and d <= sub)   # moments grid: spacing sub/hd, 1/spacing an integer
-    if n % sub or hd > 128:
-        raise MachineryFailure(f"unsupported grid n={n} hd={hd} sub={sub}")
-    errs: list[str] = []
-    u = loc + (np.arange(n + 1) - n // 2) / hd                       # grid in x (normal) / ln x (lognormal)
-    xs = u if kind == "normal" else np.exp(u)
-    x = torch.tensor(xs, dtype=torch.float32)
-    jac = np.ones_like(xs) if kind == "normal" else x.numpy().astype(np.float64)   # density of ln x = pdf(x) * x
-    pdf = _call(errs, "pdf", lambda: dist.pdf(x, loc, scale))
-    lpdf = _call(errs, "logpdf", lambda: dist.logpdf(x, loc, scale))
-    cdf = _call(errs, "cdf", lambda: dist.cdf(x, loc, scale))
-    lcdf = _call(errs, "logcdf", lambda: dist.logcdf(x, loc, scale))
-    if kind == "normal":
-        mean = _call(errs, "mean", lambda: dist.mean(loc))
-        var = _call(errs, "variance", lambda: dist.variance(scale))
-    else:
-        mean = _call(errs, "mean", lambda: dist.mean(loc, scale))
-        var = _call(errs, "variance", lambda: dist.variance(loc, scale))
-    rt = _call(errs, "params_mv", lambda: dist.params_mv(mean, var)) if mean is not None and var is not None else None
-    ret = {"errs": errs}
-    if not errs:
-        den = pdf.numpy().astype(np.float64) * jac
-        ret.update(den=_q(den), eld=_q(np.exp(lpdf.numpy().astype(np.float64)) * jac), cdf=_q(cdf),
-                   elc=_q(np.exp(lcdf.numpy().astype(np.float64))), mean=_q(mean)[0], var=_q(var)[0],
-                   loc=_q(loc)[0], scale=_q(scale)[0], rtloc=_q(rt[0])[0], rtscale=_q(rt[1])[0], m1=0, m2=0)
-        if kind == "lognormal":
-            # float64 quadrature (in ln x) of the logged density: first and second central moment
-            h = 1.0 / hd
-            w = den * h
-            m1 = float(np.sum(xs * w))
-            m2 = float(np.sum((xs - m1) ** 2 * w))
-            ret.update(m1=_q(m1)[0], m2=_q(m2)[0])
-    return {"op": {"a": kind, "n": n, "hd": hd, "sub": sub, "loc": loc, "scale": scale}, "ret": ret, "st": 0}
+    z = (np.arange(n + 1) - n // 2) / hd
+    locs = np.array([p[0] for p in params], dtype=np.float64)
+    scales = np.array([p[1] for p in params], dtype=np.float64)
+    U = locs[None, :] + scales[None, :] * z[:, None]
+    X = U if kind == "normal" else np.exp(U)
+    xt = torch.tensor(X, dtype=torch.float32)
+    lt, st_ = torch.tensor(locs, dtype=torch.float32), torch.tensor(scales, dtype=torch.float32)
+    berrs: list[str] = []
+    bpdf = _call(berrs, "pdf[broadcast]", lambda: dist.pdf(xt, lt[None, :], st_[None, :]))
+    bcdf = _call(berrs, "cdf[broadcast]", lambda: dist.cdf(xt, lt[None, :], st_[None, :]))
+    out = []
+    for j, (loc, scale) in enumerate(params):
+        errs = list(berrs)
+        bad: list[str] = []
+        x = xt[:, j].contiguous()
+        xs = _np(x)
+        jac = scale * (np.ones_like(xs) if kind == "normal" else xs)
+        pdf = _call(errs, "pdf", lambda: dist.pdf(x, loc, scale))
+        lpdf = _call(errs, "logpdf", lambda: dist.logpdf(x, loc, scale))
+        cdf = _call(errs, "cdf", lambda: dist.cdf(x, loc, scale))
+        lcdf = _call(errs, "logcdf", lambda: dist.logcdf(x, loc, scale))
+        if kind == "normal":
+            mean = _call(errs, "mean", lambda: dist.mean(loc))
+            var = _call(errs, "variance", lambda: dist.variance(scale))
+        else:
+            mean = _call(errs, "mean", lambda: dist.mean(loc, scale))
+            var = _call(errs, "variance", lambda: dist.variance(loc, scale))
+        rt = _call(errs, "params_mv", lambda: dist.params_mv(mean, var)) if mean is not None and var is not None else None
+        ret = {"errs": errs, "nonfinite": bad}
+        if not errs:
+            den = _np(pdf) * jac
+            m, v = float(mean), float(var)
+            ret.update(den=_q(den, bad, "pdf"), eld=_q(np.exp(_np(lpdf)) * jac, bad, "exp(logpdf)"), cdf=_q(_np(cdf), bad, "cdf"),
+                       elc=_q(np.exp(_np(lcdf)), bad, "exp(logcdf)"),
+                       denb=_q(_np(bpdf)[:, j] * jac, bad, "pdf[broadcast]"), cdfb=_q(_np(bcdf)[:, j], bad, "cdf[broadcast]"),
+                       # round trip of the parameters, in units of the scale
+                       rtloc=_q((float(rt[0]) - loc) / scale, bad, "params_mv.loc")[0],
+                       rtscale=_q(float(rt[1]) / scale, bad, "params_mv.scale")[0])
+            if kind == "normal":
+                ret.update(mean=_q((m - loc) / scale, bad, "mean")[0], var=_q(v / scale ** 2, bad, "variance")[0], m1r=Q, m2r=Q)
+            else:
+                w = den / hd
+                m1 = float(np.sum(xs * w))
+                m2 = float(np.sum((xs - m1) ** 2 * w))
+                ret.update(mean=0, var=Q, m1r=_q(m1 / m if m else np.nan, bad, "mean")[0],
+                           m2r=_q(m2 / v if v else np.nan, bad, "variance")[0])
+        out.append({"op": {"a": kind, "n": n, "hd": hd, "sub": sub, "loc": loc, "scale": scale}, "ret": ret, "st": 0})
+    return out
